@@ -32,7 +32,7 @@ func gen(tier string, seed int64) []mon.Case {
 	modes := []string{"duplex", "lockstep", "updown"}
 	reps := 1
 	if tier == "thorough" {
-		reps = 4
+		reps = 10
 	}
 	for rep := 0; rep < reps; rep++ {
 		for _, t := range xferTransports {
@@ -60,7 +60,7 @@ func gen(tier string, seed int64) []mon.Case {
 	// unblock
 	ureps := 1
 	if tier == "thorough" {
-		ureps = 5
+		ureps = 15
 	}
 	for rep := 0; rep < ureps; rep++ {
 		for _, t := range []string{"system", "system-netconf", "system-ssh", "standard-shell", "standard-netconf", "telnet"} {
@@ -74,7 +74,7 @@ func gen(tier string, seed int64) []mon.Case {
 	// end-to-end differential
 	ecli, enc := 4, 3
 	if tier == "thorough" {
-		ecli, enc = 50, 40
+		ecli, enc = 120, 100
 	}
 	rss := []int{8192, 81, 65535}
 	for i := 0; i < ecli; i++ {
